@@ -137,6 +137,9 @@ func c07ConsolidateOracle(inputs ast.Schemas, result ast.Schemas, err error) str
 
 type c07Input struct{ format, path, pkg string }
 
+// directory of builder veneer files handed to every pipeline built by c07Pipeline ("" = none)
+var c07VeneersDir string
+
 func c07Testdata() []c07Input {
 	var ins []c07Input
 	for _, d := range []struct{ format, dir string }{{"jsonschema", "testdata/jsonschema"}, {"openapi", "testdata/openapi"}} {
@@ -175,6 +178,9 @@ func c07Pipeline(inputs []c07Input, langs []string, builders bool) (*codegen.Pip
 	p.Output.Types = true
 	p.Output.Builders = builders
 	p.Output.Converters = builders
+	if c07VeneersDir != "" {
+		p.Transforms.VeneersDirectories = []string{c07VeneersDir}
+	}
 	for _, l := range langs {
 		ol := &codegen.OutputLanguage{}
 		switch l {
